@@ -56,6 +56,10 @@ EXTRA_TEXTS = ['foo == a["b"]', 'foo != a[ `b` ]', 'a["b"] in foo', 'foo contain
                'all xs as x { x == 1 }}', 'all xs as x { x == 1 } ', 'all xs as _ ,v { v == 1 }', 'all xs as k,v{ v == 1 and k == 0 }', '1 in a}', 'a == 1 }',
                # characters outside ASCII at the edges and between tokens (each class symbol is tried with many members)
                '☃foo == 1', 'foo == 1☃', 'foo ☃== 1', 'foo == ☃', 'foo == "a☃b"', 'foo == `☃`', 'foo☃ == 1', 'a["☃"] == 1', 'a.☃ == 1', '☃', ' ☃ ', 'foo == 1 ☃', 'é == 1', 'foo == é',
+               # negation: stacked, through parentheses, in front of the keyword used as an identifier
+               'not not a == 1', 'not (not a == 1)', 'not (not (not a == 1))', 'not not (not a == 1)', 'not ( not a == 1 )', 'not not == 1', 'not not not in x', 'not not not == 1',
+               'not (a == 1)', 'not(a == 1)', 'not\t(a == 1)', 'not not', 'not', 'not a', '(not a == 1) and not (b == 2)', 'not (a == 1 and not (b == 2))', 'not not in x', 'not in x',
+               'not any xs as x { not x == 1 }', 'any xs as x { not (not x == 1) }', 'a == 1 and not not b == 2', 'not a == 1 or not not not b == 2',
                # binding lists
                'any xs as _, _ { a == 1 }', 'any xs as _ { a == 1 }', 'any xs as _,v { v == 1 }', 'any xs as v,_ { v == 1 }', 'any xs as v, v { v == 1 }', 'any xs as { a == 1 }',
                'any xs as 1 { a == 1 }', 'any xs as a.b { a == 1 }', 'any xs as "v" { v == 1 }', 'any xs as v w { v == 1 }', 'any xs as v, { v == 1 }', 'any xs as ,v { v == 1 }',
